@@ -245,6 +245,8 @@ pub fn s_language() -> SBoxedStrategy<String> {
         2 => "[a-z]{5,8}",
         1 => Just("und".to_string()),
         1 => Just("en".to_string()),
+        1 => "und[a-z]{2,5}",
+        1 => "[a-z]{8}",
     ]
     .sboxed()
 }
@@ -373,15 +375,20 @@ pub fn s_langid_long_bytes() -> SBoxedStrategy<Vec<u8>> {
 /// (plus the odd generated one), random case / separator masks
 pub fn s_langid_many_variants() -> SBoxedStrategy<Vec<u8>> {
     const POOL: &[&str] = &["valencia", "1abc", "macos", "1994", "1996", "rozaj", "biske", "nedis", "fonipa", "12345", "abcdefgh", "9zzz"];
+    // 12 fixed + 60 numbered variants: long lists hold well over 32 distinct entries *and* repeats
+    let mut pool: Vec<String> = POOL.iter().map(|s| s.to_string()).collect();
+    for i in 0..60 {
+        pool.push(format!("v{:04}", i * 37 % 1000));
+    }
     let one = prop_oneof![
-        9 => proptest::sample::select(POOL.to_vec()).prop_map(|s| s.to_string()),
+        12 => proptest::sample::select(pool),
         1 => s_variant(),
     ];
     (
         s_language(),
         proptest::option::weighted(0.5, s_script()),
         proptest::option::weighted(0.5, s_region()),
-        vec(one, 20..=80),
+        vec(one, 20..=100),
         prop_oneof![2 => Just(0u64), 2 => any::<u64>()],
         prop_oneof![3 => Just(0u64), 1 => any::<u64>()],
     )
